@@ -1136,12 +1136,23 @@ func eq(lhs, rhs reflect.Value) bool {
 		return reflect.DeepEqual(lhs.Interface(), rhs.Interface())
 	}
 
+	// JSON null equals itself, whether it is the null literal or
+	// an array member that holds it.
+	if isNull(lhs) && isNull(rhs) {
+		return true
+	}
+
 	// All other types (e.g. functions) are
 	// compared directly. Two functions with the same contents
 	// are not considered equal unless they're the same
 	// physical object in memory.
 
 	return lhs == rhs
+}
+
+func isNull(v reflect.Value) bool {
+	v = jtypes.Resolve(v)
+	return v.IsValid() && v.Kind() == reflect.Ptr && v.IsNil() && v.Type() == reflect.TypeOf(null)
 }
 
 func lt(lhs, rhs reflect.Value) bool {
@@ -1166,10 +1177,6 @@ func lte(lhs, rhs reflect.Value) bool {
 }
 
 func in(lhs, rhs reflect.Value) bool {
-	// TODO: Does not work with null, e.g.
-	//    null in null    // evaluates to false
-	//    null in [null]  // evaluates to false
-
 	rhs = arrayify(rhs)
 
 	for i, N := 0, rhs.Len(); i < N; i++ {
